@@ -160,8 +160,9 @@ Theorem eviction_f2_refuted :
 Proof. exact StepProofs.eviction_f2_refuted. Qed.
 Print Assumptions eviction_f2_refuted.
 
-(* ---- the doRemove descent with the two sibling dereferences on the way up
-   (remove.go:96-109): off-path evictions that never hit the embedded leaf of a
+(* ---- the doRemove descent as repaired in 8b362ab: pre-dereference of both
+   children before the descent (remove.go:88-95), store on success (:99-116),
+   and the two sibling dereferences on the way up (:118-131): off-path evictions that never hit the embedded leaf of a
    dirty node are invisible; an eviction of such a leaf BETWEEN the dereference
    of n.Left and of n.Right makes the parent collapse the branch away even for
    an absent key (the transient variant of finding F1). ---- *)
@@ -177,7 +178,7 @@ Proof. exact StepProofs.remove_descent_correct. Qed.
 Print Assumptions remove_descent_correct.
 
 Theorem eviction_f1_transient_refuted :
-  (exists res, rrun [128; 1] (RDown [] 0 f1t_tree) (f1t_steps 10) = RDone res /\
+  (exists res, rrun [128; 1] (RDown [] 0 f1t_tree) (f1t_steps 14) = RDone res /\
                contents (view res) = [([0; 1; 0], [2]); ([128], [1]); ([128; 255; 1; 128], [3])]) /\
   (exists fs lbl lf l r lp, f1t_mid = RCol1 fs lbl lf l r lp /\ evict r f1t_evicted) /\
   (exists res, rrun [128; 1] f1t_mid [REvictR f1t_evicted; RStep; RStep] = RDone res /\
